@@ -21,6 +21,10 @@ type requestStream struct {
 	totalBytesRead  int
 	chunkLeft       int
 	chunkedDone     bool
+	// chunkedErr is the framing error the chunked body ended with. The position
+	// in the connection is undefined after it, so it is returned again by
+	// every further Read.
+	chunkedErr error
 }
 
 // unread reports whether a part of the request body has not been read from
@@ -50,14 +54,19 @@ func (rs *requestStream) Read(p []byte) (int, error) {
 			// connection belongs to the next request.
 			return 0, io.EOF
 		}
+		if rs.chunkedErr != nil {
+			return 0, rs.chunkedErr
+		}
 		if rs.chunkLeft == 0 {
 			chunkSize, err := parseChunkSize(rs.reader)
 			if err != nil {
+				rs.chunkedErr = err
 				return 0, err
 			}
 			if chunkSize == 0 {
 				err = rs.header.ReadTrailer(rs.reader)
 				if err != nil && err != io.EOF {
+					rs.chunkedErr = err
 					return 0, err
 				}
 				rs.chunkedDone = true
@@ -73,7 +82,9 @@ func (rs *requestStream) Read(p []byte) (int, error) {
 			err = io.ErrUnexpectedEOF
 		}
 		if err == nil && rs.chunkLeft == 0 {
-			err = readCrLf(rs.reader)
+			if err = readCrLf(rs.reader); err != nil {
+				rs.chunkedErr = err
+			}
 		}
 		return n, err
 	}
@@ -122,6 +133,7 @@ func releaseRequestStream(rs *requestStream) {
 	rs.totalBytesRead = 0
 	rs.chunkLeft = 0
 	rs.chunkedDone = false
+	rs.chunkedErr = nil
 	rs.reader = nil
 	rs.header = nil
 	requestStreamPool.Put(rs)
